@@ -373,7 +373,15 @@ def toast_pixel_for_point(depth, lat, lon, coordsys=ToastCoordinateSystem.ASTRON
     # that is closest to the input position.
 
     lons, lats = toast_tile_get_coords(tile)
-    dist2 = (lons - lon) ** 2 + (lats - lat) ** 2
+
+    # Longitudes are periodic, and the tile's pixel longitudes may be expressed
+    # on a different branch than the query longitude (e.g. -90..0 degrees
+    # rather than 270..360). Measure them relative to the query point so that
+    # both the nearest-pixel search and the fit below see a continuous
+    # coordinate.
+    dlons = (lons - lon + np.pi) % TWOPI - np.pi
+    lons = lon + dlons
+    dist2 = dlons**2 + (lats - lat) ** 2
     min_y, min_x = np.unravel_index(np.argmin(dist2), (256, 256))
 
     # Now, identify a postage stamp around that best-fit pixel and fit a biquadratic
